@@ -55,7 +55,19 @@ def handle (j : Json) : Except String Json := do
     let mols := ms.map (·.mol)
     let observed ← (← (← j.getObjVal? "table").getArr?).toList.mapM fun t => do
       pure (((← (← t.getArrVal? 0).getNat?), (← (← t.getArrVal? 1).getNat?)), (← (← t.getArrVal? 2).getNat?))
-    pure (okJson [("table", tableToJson (gndxTable mols 0 0)), ("spec", Json.bool (specTable mols observed))])
+    -- residue type names: per molecule, aligned with its node list; observed engine `atypes`
+    let names ← match j.getObjVal? "names" with
+      | .ok v => (← v.getArr?).toList.mapM fun l => do (← l.getArr?).toList.mapM (·.getStr?)
+      | .error _ => pure []
+    let atypes ← match j.getObjVal? "atypes" with
+      | .ok v => (← v.getArr?).toList.mapM (·.getStr?)
+      | .error _ => pure []
+    let nm : Nat → Walk.Node → String := fun jm n =>
+      match mols[jm]?, names[jm]? with
+      | some m, some l => l.getD (m.nodes.idxOf n) "?"
+      | _, _ => "?"
+    pure (okJson [("table", tableToJson (gndxTable mols 0 0)), ("spec", Json.bool (specTable mols observed)),
+                  ("atypes", toJson (atypeTable nm mols 0)), ("spec_types", Json.bool (specTypes nm observed atypes))])
   | _ => C17.handle j
 
 end PolyplyVerif.Driver.C04
